@@ -2,6 +2,7 @@ import Flowjaxv.Driver.Util
 import Flowjaxv.Driver.Leaves
 import Flowjaxv.Driver.Tree
 import Flowjaxv.Driver.Misc
+import Flowjaxv.Driver.ArrTree
 /-!
 Model driver: `lake env lean --run Driver.lean < ops.txt`.  One op per line in, one line out
 (`ERR <msg>` when the model rejects the op).
@@ -19,6 +20,7 @@ def dispatch (line : String) : String :=
       | "vtree" => vtree args
       | "ctree" => ctree args
       | "tdist" => tdist args
+      | "atree" => atree args
       | "ctor" => ctor args
       | "permute" => permute args
       | "permvalid" => permvalid args
